@@ -19,12 +19,35 @@ SpecFails(e) ==
   \cup (IF \E r \in rows : ~IsPermutation(o.ramp[r], Scaled(e.data[r])) THEN {"AAFTPermutation|refined_AAFT_surrogates(true_amplitudes)"} ELSE {})
   \cup (IF \E r \in rows : ~SameSpectrum(o.rspec[r], Scaled(e.data[r])) THEN {"FourierSpectrum|refined_AAFT_surrogates(true_spectrum)"} ELSE {})
   \cup (IF \E r \in rows : o.data_after[r] # Scaled(e.data[r]) THEN {"DataUntouched|original_data"} ELSE {})
+  \* after normalize_original_data: zero mean, unit variance, order preserved; the surrogates are those of
+  \* the normalised data
+  \cup (IF "data_norm" \notin DOMAIN o THEN {}
+        ELSE IF ~(AllNum(o.data_norm) /\ AllNum(o.n_corr) /\ AllNum(o.n_aaft) /\ AllNum(o.n_ramp) /\ AllNum(o.n_rspec))
+             THEN {"FiniteValues|after normalize_original_data"}
+        ELSE
+        (IF \E r \in rows : LET z == o.data_norm[r]  n == Len(z) IN
+              \/ Abs(SumN(LAMBDA t : z[t], 1, n)) > n
+              \/ Abs(SumN(LAMBDA t : (z[t] * z[t]) \div 1000, 1, n) - 1000 * n) > 3 * n + 3
+              \/ \E t \in 1..n : \E u \in 1..n : (e.data[r][t] < e.data[r][u]) # (z[t] < z[u])
+         THEN {"Normalised|normalize_original_data"} ELSE {})
+        \* (a series with unit variance has |x_t| <= sqrt(n), and so has every series with its amplitude spectrum)
+        \cup (IF \E r \in rows : \E t \in 1..Len(o.n_corr[r]) :
+                   \/ Abs(o.n_corr[r][t]) > 40000 \/ o.n_corr[r][t] * o.n_corr[r][t] > 1100000 * Len(o.n_corr[r])
+                   \/ Abs(o.n_rspec[r][t]) > 40000 \/ o.n_rspec[r][t] * o.n_rspec[r][t] > 1100000 * Len(o.n_corr[r])
+              THEN {"FourierSpectrum|magnitude after normalize_original_data"}
+              ELSE
+        (IF \E r \in rows : ~SameSpectrum(o.n_corr[r], o.data_norm[r]) THEN {"FourierSpectrum|correlated_noise_surrogates after normalize_original_data"} ELSE {})
+        \cup (IF \E r \in rows : ~IsPermutation(o.n_aaft[r], o.data_norm[r]) THEN {"AAFTPermutation|AAFT_surrogates after normalize_original_data"} ELSE {})
+        \cup (IF \E r \in rows : ~IsPermutation(o.n_ramp[r], o.data_norm[r]) THEN {"AAFTPermutation|refined_AAFT_surrogates(true_amplitudes) after normalize_original_data"} ELSE {})
+        \cup (IF \E r \in rows : ~SameSpectrum(o.n_rspec[r], o.data_norm[r]) THEN {"FourierSpectrum|refined_AAFT_surrogates(true_spectrum) after normalize_original_data"} ELSE {})))
 \* position (0-based) of value v in the distinct-valued series x
 IdxOf(x, v) == (CHOOSE t \in 1..Len(x) : x[t] = v) - 1
 \* one series x of the object with its recorded twins and surrogate
-TwinFailsOf(e, x, twins, surr, row) ==
+\* (Surrogates: states at a distance <= threshold recur; RecurrencePlot: distance < threshold - a tie at
+\* the threshold is where the two documented conventions differ, thr - 1/2 expresses the strict one on integers)
+TwinFailsOf(e, x, twins, surr, row, strict) ==
   LET X == Embed(x, e.dim, 1)
-      R == RecS(X, 8)
+      R == IF strict THEN RecS(X, e.thr - 1) ELSE RecS(X, e.thr)
       tw == Twins(R, e.md)
       n == Len(X)
   IN (IF twins # tw THEN {"TwinsDef|twins" \o row} ELSE {})
@@ -33,10 +56,10 @@ TwinFailsOf(e, x, twins, surr, row) ==
            ELSE IF ~TwinWalk(tw, n, [j \in 1..Len(surr) |-> IdxOf(x, surr[j])])
                 THEN {"TwinWalk|twin_surrogates" \o row} ELSE {})
 SortedRows(tw) == [k \in 1..Len(tw) |-> SortSeq(tw[k], LAMBDA a, b : a < b)]
-TwinFails(e) == TwinFailsOf(e, e.x, e.obs.twins, e.obs.surr, "")
-                \cup TwinFailsOf(e, e.x2, e.obs.twins2, e.obs.surr2, "[row 1]")
+TwinFails(e) == TwinFailsOf(e, e.x, e.obs.twins, e.obs.surr, "", FALSE)
+                \cup TwinFailsOf(e, e.x2, e.obs.twins2, e.obs.surr2, "[row 1]", FALSE)
                 \* RecurrencePlot: same twins (as sets), same walk; result shape (surrogates, states, dimension)
-                \cup TwinFailsOf(e, e.x, e.obs.rp_twins, e.obs.rp_surr, "[RecurrencePlot]")
+                \cup TwinFailsOf(e, e.x, e.obs.rp_twins, e.obs.rp_surr, "[RecurrencePlot]", TRUE)
                 \cup (IF \E k \in 1..Len(e.obs.rp_twins_low) : e.obs.rp_twins_low[k] # 0
                       THEN {"TwinsDef|RecurrencePlot.twins after set_fixed_threshold"} ELSE {})
                 \cup (IF e.obs.rp_twins_back # e.obs.rp_twins
@@ -45,7 +68,7 @@ TwinFails(e) == TwinFailsOf(e, e.x, e.obs.twins, e.obs.surr, "")
                       THEN {"Shape|RecurrencePlot.twin_surrogates"} ELSE {})
 Verdict(e) ==
   LET tags == e.blk \o (IF e.blk = "spec" THEN (IF ZeroAmplitude(e) THEN ",zero_amplitude" ELSE "") \o ",n" \o ToString(e.n) \o ",k" \o ToString(e.k)
-                        ELSE ",dim" \o ToString(e.dim) \o ",md" \o ToString(e.md)) IN
+                        ELSE ",dim" \o ToString(e.dim) \o ",md" \o ToString(e.md) \o ",thr" \o ToString(e.thr)) IN
   IF e.obs.exc # "" THEN <<"REJECT", "Applicable", e.obs.exc, tags>>
   ELSE LET f == IF e.blk = "spec" THEN SpecFails(e) ELSE TwinFails(e) IN
        IF f = {} THEN <<"ACCEPT", "", "", tags>> ELSE <<"REJECT", "Multi", JoinSet(f), tags>>
